@@ -8,6 +8,7 @@ mod faultgen;
 mod hook;
 mod known;
 mod minimise;
+mod miri;
 mod monitor;
 mod norm;
 mod oracle;
@@ -56,6 +57,8 @@ fn main() {
             let id = args[2].as_str();
             if checks::PIPELINE_CHECKS.contains(&id) {
                 checks::run_pipeline_check(id, tier, seed)
+            } else if components::COMPONENT_CHECKS.contains(&id) {
+                components::run_component_check(id, tier, seed)
             } else {
                 eprintln!("unknown check {id}");
                 2
